@@ -7,6 +7,7 @@ import Rtp.Proofs.AV1DepackIdx
 import Rtp.Proofs.AV1Packet
 namespace Rtp.Model.AV1
 open Rtp Rtp.Model
+open Rtp.Model.ObuLemmas
 
 theorem parseBodyLoopC_eq (payload : Bytes) (w : UInt8) (fuel i cur : Nat) (acc : List Bytes)
     (hc : cur ≤ payload.length) :
